@@ -1810,8 +1810,15 @@ size_t rtosc_scan_arg_val(const char* src,
                 //  => take it directly from there
                 if(skip_fmt(&src, "%*f (%n"))
                 {
+                    rd = 0;
                     sscanf(src, " ... + 0x%8"PRIx64"p-32 s )%n",
                            &secfracs, &rd);
+                    if(!rd)
+                    {
+                        // the printer writes the fraction as a hex float
+                        sscanf(src, " ... + %f s )%n", &secfracsf, &rd);
+                        secfracs = rtosc_float2secfracs(secfracsf);
+                    }
                     src += rd;
                 }
                 // float number, but not lossless?
